@@ -183,6 +183,19 @@ class Scenario:
                         await anyio.sleep(0.01)
 
                     add_teardown_callback(acb)
+                elif form == 1 and tid % 2:
+                    # a plain callable whose return value is an awaitable object that is not a coroutine (`conn.close` of a
+                    # library that returns a future-like object): the work happens when that object is awaited
+                    class Closing:
+                        def __init__(self, tid: int) -> None:
+                            self.tid = tid
+
+                        def __await__(self) -> Any:
+                            sc.log("td-run", self.tid, form="awaitable-object")
+                            return None
+                            yield  # pragma: no cover
+
+                    add_teardown_callback(lambda tid=tid: Closing(tid))
                 elif form == 1:
                     async def acb0(tid: int = tid) -> None:
                         sc.log("td-run", tid, form="async")
